@@ -117,6 +117,9 @@ class C10MW(object):
         self.nextapp, self.tag = nextapp, tag
 
     def __call__(self, environ, start_response):
+        if environ.get('PATH_INFO', '').endswith('/mwfail'):
+            # fails before any request object exists: only the ExceptionTrapper can answer
+            raise ValueError('c10 middleware failure')
         prev, mine = environ.get('c10.mw', ''), '|' + str(self.tag)
         environ['c10.mw'] = prev if prev.endswith(mine) else prev + mine     # an internal redirect passes here again
         return self.nextapp(environ, start_response)
